@@ -35,6 +35,7 @@ TRUSTED = [
     "CPython's parser / compiler (\"the result compiles\" is evaluated per program, not proved)",
     "the abstraction of a Python AST to the generic located tree (harness/c10.py: skeleton)",
     "hypothesis of the behavioural clause: the module does not rebind the identifier `jaxtyping`",
+    "harness/translate_hook.py (recognisers of the statements of the three visitor methods) and the interpreter Model/HookDsl.lean (generic_visit = transformList)",
 ]
 
 TC = Typechecker(None)
